@@ -446,6 +446,12 @@ def g_elastic():
     return {'Elastic': (text, js)}
 
 
+@group('heat')
+def g_heat():
+    import heat_tr
+    return heat_tr.build()
+
+
 @group('radshock')
 def g_radshock():
     """travelling-wave structure of the radiative-shock wrappers' _run (np.interp on flipped profile arrays with
